@@ -32,6 +32,7 @@ SPVERIF_NO_NORMALIZE=1 switches all of this off (debugging only).
 """
 
 import ast
+from .source import clone as _clone
 import os
 
 OFF = os.environ.get("SPVERIF_NO_NORMALIZE") == "1"
@@ -394,10 +395,10 @@ def _subst(e, env):
     class T(ast.NodeTransformer):
         def visit_Name(self, node):
             if isinstance(node.ctx, ast.Load) and node.id in env:
-                return copy.deepcopy(env[node.id])
+                return _clone(env[node.id])
             return node
 
-    return T().visit(copy.deepcopy(e))
+    return T().visit(_clone(e))
 
 
 def unfold_expression_functions(tree):
